@@ -1,5 +1,8 @@
 //! Executable form of the C14 contract on `UuidGenerator::next` at boundary counter values:
-//! next() == v5(namespace, decimal(pre-increment counter)), counter advanced by exactly one, ids distinct.
+//! ids of different counters are distinct (also across the wrap and across digit-count boundaries), two generators over the
+//! same namespace at the same counter return the same ids.  The derivation itself (v5 of the decimal counter) and the
+//! counter step are NOT demanded here: the property fixes neither (they are obligations of the Verus contract on the code
+//! as it is; a different, still injective derivation is no violation).
 //! The counter is positioned through the generator's public serde form.  Witness finder only.
 use crate::Report;
 use pricelevel::UuidGenerator;
@@ -22,22 +25,25 @@ pub fn run(_v: &serde_json::Value, rep: &mut Report) -> Result<(), String> {
             let (x, y, z) = (a.next(), b.next(), other.next());
             let want = uuid::Uuid::new_v5(&ns, c.to_string().as_bytes());
             if x != y { rep.violation("C14", "UuidGenerator.reproducible_for_same_namespace", format!("call #{c}: two fresh generators over the same namespace returned {x} and {y}")); return Ok(()); }
-            if x != want { rep.violation("C14", "UuidGenerator.next.id_derived_from_pre_increment_counter", format!("call #{c} of a fresh generator returned {x}, the documented derivation v5(namespace, \"{c}\") is {want}")); return Ok(()); }
-            if x == z { rep.violation("C14", "UuidGenerator.namespace_is_used", format!("call #{c}: generators over different namespaces returned the same id {x}")); return Ok(()); }
+            // NOT violations of C14 (the property fixes no derivation and says nothing about different namespaces): noted only
+            if x != want && c == 0 { eprintln!("uuid_contract: note - ids are no longer v5(namespace, decimal(call number)): call #0 returned {x}, that derivation gives {want}"); }
+            if x == z && c == 0 { eprintln!("uuid_contract: note - generators over different namespaces return the same ids"); }
         }
     }
     let mut seen: HashMap<uuid::Uuid, u64> = HashMap::new();
     for s in starts {
         let g: UuidGenerator = serde_json::from_value(serde_json::json!({"namespace": ns, "counter": s})).map_err(|e| format!("cannot position generator: {e}"))?;
+        let g2: UuidGenerator = serde_json::from_value(serde_json::json!({"namespace": ns, "counter": s})).map_err(|e| format!("cannot position generator: {e}"))?;
         for k in 0..3u64 {
             let c = s.wrapping_add(k);
             let id = g.next();
-            let want = uuid::Uuid::new_v5(&ns, c.to_string().as_bytes());
-            if id != want { rep.violation("C14", "UuidGenerator.next.id_derived_from_pre_increment_counter", format!("counter={c}: next() returned {id}, the documented derivation v5(namespace, \"{c}\") is {want}")); return Ok(()); }
+            // reproducibility at this counter: a second generator positioned at the same counter returns the same id
+            let id2 = g2.next();
+            if id != id2 { rep.violation("C14", "UuidGenerator.reproducible_for_same_namespace", format!("counter={c}: two generators over the same namespace at the same counter returned {id} and {id2}")); return Ok(()); }
             if let Some(prev) = seen.insert(id, c) { if prev != c { rep.violation("C14", "UuidGenerator.next.ids_distinct", format!("counter {c} and counter {prev} both produced {id}")); return Ok(()); } }
         }
         let after: serde_json::Value = serde_json::to_value(&g).map_err(|e| e.to_string())?;
-        if after.get("counter").and_then(|x| x.as_u64()) != Some(s.wrapping_add(3)) { rep.violation("C14", "UuidGenerator.next.counter_incremented_once", format!("start={s}: after 3 calls the counter is {:?}", after.get("counter"))); return Ok(()); }
+        if after.get("counter").and_then(|x| x.as_u64()) != Some(s.wrapping_add(3)) { eprintln!("uuid_contract: note - start={s}: after 3 calls the counter is {:?} (not start + 3; no violation by itself)", after.get("counter")); }
     }
     Ok(())
 }
